@@ -1033,7 +1033,12 @@ func (e *c15Env) step(s c15Step) (evs []map[string]any, applied bool) {
 		time.Sleep(3 * c15Silence)
 	case "Read":
 		f := c15Int(s["f"])
-		if e.pfStall || e.bgStall || f < 1 || f > len(e.files) {
+		e.reg.mu.Lock()
+		holding := e.reg.mode == "hold"
+		e.reg.mu.Unlock()
+		// while the registry holds requests back (also: background fetch suspended with its requests still to be held)
+		// a read of the driver would be held too: not executed
+		if e.pfStall || e.bgStall || holding || f < 1 || f > len(e.files) {
 			return nil, false
 		}
 		ok, msg := e.read(f - 1)
